@@ -1,16 +1,36 @@
 #!/bin/bash
-# usage: seedsweep.sh [glob]   (default: all seeds)
-# Runs every seeded change against the quick check of its property (on scratch worktrees of /repo HEAD)
-# and prints one line per seed: CAUGHT (rc=1), MISSED (rc=0), NOAPPLY (rc=3), or HARNESS (rc=2).
+# usage: tools/seedsweep.sh [-f] [glob]   (default: all seeds)
+# Runs every seeded change against the quick check of the property named in its meta.json
+# "checked_by" (default: its own property) on a scratch worktree of /repo HEAD and prints one line
+# per seed: CAUGHT (rc=1), MISSED (rc=0), NOAPPLY (rc=3) or HARNESS (rc=2); the result is written
+# into the seed's meta.json ("check_result"). With -f ("fast") only the unit that caught the seed
+# last time is run (--only <unit>), falling back to the whole check when there is none.
 cd /verif
-for d in seeded/${1:-C*-[a-d]}; do
+fast=0; [ "$1" = "-f" ] && { fast=1; shift; }
+for d in seeded/${1:-C*-[a-z]}; do
   id=$(basename $d); prop=${id%-*}
-  out=$(tools/trymutant.sh $d/patch.diff $prop 2>&1)
+  by=$(python3 -c "import json,sys; m=json.load(open('$d/meta.json')); print(m.get('checked_by') or '$prop')" 2>/dev/null || echo $prop)
+  neutral=$(python3 -c "import json; m=json.load(open('$d/meta.json')); print(m.get('neutralised_by',''))" 2>/dev/null)
+  if [ -n "$neutral" ]; then echo "$id NEUTRALISED($neutral)"; continue; fi
+  only=()
+  if [ $fast = 1 ]; then
+    u=$(python3 -c "import json; m=json.load(open('$d/meta.json')); print((m.get('check_result') or {}).get('unit',''))" 2>/dev/null)
+    [ -n "$u" ] && only=(--only "$u")
+  fi
+  out=$(tools/trymutant.sh $d/patch.diff $by "${only[@]}" 2>&1)
   if echo "$out" | grep -q "PATCH DOES NOT APPLY"; then echo "$id NOAPPLY"; continue; fi
   rc=$(echo "$out" | grep -o 'rc=[0-9]*' | tail -1)
   sigs=$(echo "$out" | grep -o 'sig=[^ ]*' | sort -u | head -3 | tr '\n' ' ')
+  unit=$(echo "$out" | grep -o 'unit=[^ ]*' | head -1 | sed 's/^unit=//')
   case "$rc" in
     rc=1) st=CAUGHT;; rc=0) st=MISSED;; *) st="HARNESS($rc)";;
   esac
-  echo "$id $st $sigs"
+  echo "$id $st by=$by $sigs"
+  python3 - "$d/meta.json" "$st" "$by" "$unit" "$sigs" <<'PY'
+import json,sys
+p,st,by,unit,sigs=sys.argv[1:6]
+m=json.load(open(p))
+m['check_result']={'status':st,'check':by,'unit':unit,'signatures':[s[4:] for s in sigs.split()]}
+json.dump(m,open(p,'w'),indent=1)
+PY
 done
